@@ -598,7 +598,7 @@ impl<'p> Machine<'p> {
             Some(Op::CvWaitUntil { .. }) | Some(Op::NWaitUntil { .. }) => self.th[t].sub != WU_CHECK,
             // registration and wake-up inside block_on leave no event of their own
             Some(Op::AwWake) | Some(Op::SlotWake { .. }) => self.guided && self.th[t].sub == 0,
-            Some(Op::BlockOn2 { .. }) => self.th[t].sub == BO_WAIT,
+            Some(Op::BlockOn2 { .. }) => self.th[t].sub == BO_WAIT || self.th[t].sub == 0,
             Some(Op::BlockOn { reg_first, .. }) => matches!(self.th[t].sub, BO_REG_FIRST | BO_REG_AFTER | BO_WAIT) || (self.th[t].sub == 0 && *reg_first),
             _ => false,
         }
@@ -1569,6 +1569,9 @@ impl<'p> Machine<'p> {
                     // the first poll hands out the waker clones
                     self.waker_slots = [Some((tid, self.bo_gen[t])), Some((tid, self.bo_gen[t]))];
                     self.th[t].sub = BO2_CHECK_A;
+                    // a step of its own: the clones are scheduling points, a wake through a slot
+                    // can land between the registration and the first load of the first poll
+                    return Ok(false);
                 }
                 match self.th[t].sub {
                     BO2_CHECK_A | BO2_CHECK_B => {
